@@ -84,7 +84,7 @@ class Persistence:
         """Load sensors safely from file."""
         try:
             loaded = self._load_sensors()
-        except (EOFError, ValueError):
+        except (EOFError, ValueError, pickle.UnpicklingError):
             _LOGGER.error("Bad file contents: %s", self.persistence_file)
             loaded = False
         if not loaded:
@@ -94,7 +94,7 @@ class Persistence:
                     _LOGGER.warning(
                         "Failed to load sensors from file: %s", self.persistence_file
                     )
-            except (EOFError, ValueError):
+            except (EOFError, ValueError, pickle.UnpicklingError):
                 _LOGGER.error("Bad file contents: %s", self.persistence_file)
                 _LOGGER.warning("Removing file: %s", self.persistence_file)
                 os.remove(self.persistence_file)
